@@ -112,6 +112,8 @@ def h_specials(rng):
     out.append(("sum_zero_last", {"cls": "Sum", "ops": [dn(3), z(3, 3)]}))
     out.append(("cat_zero", X("CatLinearOperator", [z(2, 3), dn(1, 3)], {"dim": -2})))
     out.append(("cat_zero_last", X("CatLinearOperator", [dn(1, 3), z(2, 3)], {"dim": 0})))
+    out.append(("cat_zero_cols", X("CatLinearOperator", [dn(3, 1), z(3, 2)], {"dim": -1})))
+    out.append(("cat_zero_batch", X("CatLinearOperator", [z(1, 2, 2), X("DenseLinearOperator", [deft(r([2, 2, 2]))])], {"dim": 0})))
     out.append(("matmul_zero", {"cls": "Matmul", "l": dn(3), "r": z(3, 2)}))
     out.append(("matmul_zero_first", {"cls": "Matmul", "l": z(2, 3), "r": dn(3)}))
     out.append(("constmul_zero", X("ConstantMulLinearOperator", [z(3, 3), {"float": 2.0}])))
@@ -186,8 +188,8 @@ def family_h(rng, quick, seed, gen_ok):
 # ------------------------------------------------------------------------------------------ family N
 
 N_QUERIES = [("to", "pos", "F32"), ("to", "pos", "F64"), ("to", "kw", "F32"), ("to", "kw", "F64"), ("type", "F32"), ("type", "F64"),
-             ("double",), ("float",), ("to", "tensor", "F64"), ("to", "devdt", "F32"), ("clone",), ("detach",), ("to", "dev", None),
-             ("rebuild",), ("dtype",)]
+             ("double",), ("float",), ("to", "tensor", "F64"), ("to", "devdt", "F32"), ("to", "dtdev", "F64"), ("clone",), ("detach",),
+             ("to", "dev", None), ("rebuild",), ("dtype",), ("rgset", "on")]
 
 
 def n_firsts(n):
@@ -209,6 +211,7 @@ def n_wrappers(rng, n):
     """nestings with a hole for the data-free operator F: (tag, builder F -> expr)"""
     r = lambda shape, lo=-3, hi=3: ob.rand_t(rng, shape, lo, hi)
     D = lambda a=n, b=None: {"cls": "Dense", "t": r([a, b or a])}
+    D2 = lambda a: {"cls": "Dense", "t": r([2, a, a])}
     idx = {"shape": [3, 1], "data": [2, 0, 1], "long": True}
     m = {"shape": [n], "data": [1, 0] * (n // 2), "bool": True}
     return [
@@ -223,6 +226,8 @@ def n_wrappers(rng, n):
         ("interp", lambda F: {"cls": "Interpolated", "base": F, "li": idx, "lv": r([3, 1], 1, 2), "ri": idx, "rv": r([3, 1], 1, 2)}),
         ("masked", lambda F: {"cls": "Masked", "base": F, "row_mask": m, "col_mask": m}),
         ("cat_first", lambda F: X("CatLinearOperator", [F, D(1, n)], {"dim": -2})),
+        ("cat_cols", lambda F: X("CatLinearOperator", [D(n, 1), F], {"dim": -1})),
+        ("cat_batch", lambda F: X("CatLinearOperator", [{"cls": "BatchRepeat", "base": F, "rep": [1]}, D2(n)], {"dim": 0})),
         ("sum_chain", lambda F: {"cls": "Sum", "ops": [{"cls": "Sum", "ops": [F, D()]}, D()]}),
     ]
 
@@ -313,7 +318,7 @@ def nothing_to_change(s0, q, tgt):
     """is the original already what the call asks for (only then may a conversion return the object itself)?"""
     if q[0] in ("cpu",) or (q[0] == "to" and q[1] == "dev"):
         return True                                   # CPU only: every tensor already lives on the requested device
-    if q[0] in ("double", "float", "type") or (q[0] == "to" and q[1] in ("pos", "kw", "tensor", "devdt")):
+    if q[0] in ("double", "float", "type") or (q[0] == "to" and q[1] in ("pos", "kw", "tensor", "devdt", "dtdev")):
         want = str(NDT[tgt])
         fl = [t for t in s0["tensors"] if t["dtype"] in ("torch.float32", "torch.float64", "torch.float16")]
         return all(t["dtype"] == want for t in fl) and all(n["dtype"] in (want, "None") for n in s0["nodes"])
